@@ -53,7 +53,7 @@ def _ops():
         # the request's payload is free text for the node to fill: numbers that look like ids, odd spellings
         st.builds(lambda p: f"255;255;3;0;3;{p}\n", st.one_of(st.sampled_from(("0", "1", "2", "3", "7", "253", "254", "255", "256", "-1", " 5", "5 ", "1.0", "٣", "0x5", "1;2")), st.integers(0, 260).map(str))),
     )
-    present = st.builds(lambda n: f"{n};255;0;0;17;2.0\n", st.one_of(st.integers(0, 255), st.sampled_from((250, 253, 254, 255))))
+    present = st.builds(lambda n, t: f"{n};255;0;0;{t};2.0\n", st.one_of(st.integers(0, 255), st.sampled_from((250, 253, 254, 255))), st.sampled_from((17, 17, 18, 18, 0)))
     install = st.one_of(st.integers(1, 254), st.sampled_from((2, 3, 5, 200, 253, 254))).map(lambda i: ["install", i])
     # traffic of nodes the registry does not know (2.x remembers having asked them to present themselves), time passing
     stranger = st.builds(lambda n, l: ["rx", l.format(n)], st.one_of(st.sampled_from((1, 2, 250, 252, 253, 254, 255)), st.integers(0, 255)),
@@ -73,7 +73,8 @@ def strategy(tier: str):
     return st.fixed_dictionaries(
         {"version": st.one_of(st.none(), gen.versions_any, gen.versions_any, gen.versions_any), "ids": _ids, "install": st.sampled_from(("direct", "presented")), "ops": _ops(), "listen_mode": st.sampled_from(("fresh", "persistent")), "debug_log": st.sampled_from((False, False, True)),
          "fail_answers": st.one_of(st.just([]), st.just([]), st.lists(st.integers(0, 5), max_size=3, unique=True).map(sorted)),
-         "hang_answers": st.one_of(st.just([]), st.just([]), st.just([]), st.lists(st.integers(0, 5), min_size=1, max_size=2, unique=True).map(sorted))}
+         "hang_answers": st.one_of(st.just([]), st.just([]), st.just([]), st.lists(st.integers(0, 5), min_size=1, max_size=2, unique=True).map(sorted)),
+         "node_types": st.one_of(st.just([17]), st.lists(st.sampled_from((17, 18, 18, 0, 6, 99)), min_size=1, max_size=3))}
     )
 
 
@@ -104,6 +105,11 @@ def enumerate_cases(tier: str):
             for strangers in ([top + 1], [top + 1, top + 2], [254], [255], [254, 255]):
                 ops = [["rx", f"{n};1;0;0;6;child\n"] for n in strangers if n <= 255] + [["rx", "255;255;3;0;3;\n"]] * 3
                 yield {"version": version, "ids": list(range(1, top + 1)), "install": "direct", "ops": ops, "listen_mode": "persistent"}
+    # registries whose highest ids belong to repeaters (type 18) or to nodes of odd types
+    for version in ("1.4", "2.0", "2.2"):
+        for install in ("direct", "presented"):
+            for ids, types in (([0, 1, 2], [18, 17, 18]), ([1, 2, 3], [17, 17, 18]), ([5], [18]), ([1, 250], [17, 0]), ([1, 2, 3, 4], [18]), ([0, 7], [18, 99])):
+                yield {"version": version, "ids": ids, "install": install, "ops": req, "node_types": types, "listen_mode": "fresh"}
     # the request carries a number in its payload (a node suggesting an id?): allocation does not depend on it
     for version in (None, "1.5", "2.2"):
         for ids in ([1, 2, 7], list(range(1, 255)), [0, 254], []):
@@ -271,10 +277,13 @@ def run_case(case: dict) -> Outcome:
     ops = list(case["ops"])
     hist = {"version": case["version"], "ops": ops, "listen_mode": case.get("listen_mode", "fresh"), "debug_log": case.get("debug_log", False)}
     if case["install"] == "presented":
+        types = case.get("node_types") or [17]
         hist["registry"] = {}
-        hist["ops"] = [["rx", f"{i};255;0;0;17;2.0\n"] for i in ids] + ops
+        hist["ops"] = [["rx", f"{i};255;0;0;{types[k % len(types)]};2.0\n"] for k, i in enumerate(ids)] + ops
     else:
-        hist["registry"] = {str(i): {} for i in ids}
+        # node types vary (ordinary node, repeater, odd values restored from a file): an id is taken whatever sits on it
+        types = case.get("node_types") or [17]
+        hist["registry"] = {str(i): {"node_type": types[k % len(types)]} for k, i in enumerate(ids)}
     fail_answers = set(case.get("fail_answers", []))
     state = {"answers": 0}
 
